@@ -164,7 +164,7 @@ TEXT = {
 KNOWN_FINDINGS = [
     {
         "property": "C07",
-        "status": "open",
+        "status": "fixed",
         "id": "F10",
         "what": "conductor reconstruct.rs never compares a rollup blob's rollup_id with its own: another rollup's (valid) blob posted into the "
                 "conductor's namespace is attached to the header and its transactions are executed",
@@ -176,7 +176,7 @@ KNOWN_FINDINGS = [
     },
     {
         "property": "C07",
-        "status": "open",
+        "status": "fixed",
         "id": "FB1",
         "what": "SequencerBlock::try_from_raw accepts a block whose per-rollup Merkle proof does not verify (RollupTransactions.proof is decoded but "
                 "never checked against rollup_transactions_root); split_for_celestia / to_filtered_block then hand out the bad proof",
@@ -188,7 +188,7 @@ KNOWN_FINDINGS = [
     },
     {
         "property": "C17",
-        "status": "open",
+        "status": "fixed",
         "id": "FB1",
         "what": "SequencerBlock::try_from_raw accepts a block whose per-rollup Merkle proof does not verify (accepted value does not satisfy "
                 "'proofs verify against the header')",
